@@ -232,6 +232,11 @@ def _collect(E, c, fi, outs, results, short, altdesc, env0, entry_oid, timeout_m
     raised_seen = set()
     for k, o in enumerate(outs):
         st = o[1]
+        # in clauses a parameter name denotes the value passed at entry (the body may rebind the local)
+        if st.snap is not None:
+            for nm in pnames:
+                if nm in st.snap.frame.env:
+                    st.frame.env[nm] = st.snap.frame.env[nm]
         if o[0] in ('fall', 'ret'):
             normal_seen = True
             rv = o[2] if o[0] == 'ret' else None
